@@ -76,6 +76,22 @@ def main():
             return mod.replay(payload)
         _watchdog(a.prop, a.tier)
         return mod.run(a.tier, seed)
+    except (KeyError, IndexError, TypeError, AttributeError, AssertionError) as e:
+        # the harness could not make sense of an answer of the tool (an "ok" that is not there, a None where bytes were expected ...): on the unchanged
+        # tree this never happens (every tier, many seeds), so the tool's behaviour has changed in a way the run could not follow - the property is no
+        # longer shown to hold.  Reported like a broken correspondence, with the traceback as the replay; environment trouble (OSError, MemoryError,
+        # a dead model process) stays a harness error.
+        if a.replay:
+            traceback.print_exc()
+            return 2
+        tb = traceback.format_exc()
+        traceback.print_exc()
+        path = common.VERIF / "replays" / f"{a.prop}-harness-lost.json"
+        path.parent.mkdir(exist_ok=True)
+        path.write_text(json.dumps({"kind": "correspondence-broken", "property": a.prop, "exception": type(e).__name__, "traceback": tb[-6000:],
+                                    "note": "the harness could not interpret an answer of the tool; no failing input was isolated"}, indent=1))
+        print(f"VIOLATION property={a.prop} replay={path.relative_to(common.VERIF)} no-failing-input-found")
+        return 1
     except Exception:
         traceback.print_exc()
         print(f"HARNESS-ERROR property={a.prop}")
